@@ -206,6 +206,9 @@ def reapplyTransfer (st : Store) (oid : Nat) (dest : Engine) (newTarget : Res) (
   | .same => if (st.get oid).isNone then .same else .new (.transfer 0 dest orig)
   | .new t => .new (.transfer 0 dest t)
 
+/-- Two model values denote the same Python object (decidable only for nodes with an allocation id). -/
+def sameObj (a b : Rel) : Bool := a.oid != 0 && a.oid == b.oid
+
 /-- Which argument a binary application handed back. -/
 inductive BRes where
   | lhs
@@ -428,6 +431,8 @@ def pjFinishApply (st : Store) : Nat → PJoin → Rel → Except Err Res
     match res, p.fixedIsLhs with
     | .rhs, true => return .same
     | .lhs, false => return .same
+    | .rhs, false => return (if sameObj p.fixed t then .same else .new p.fixed)
+    | .lhs, true => return (if sameObj p.fixed t then .same else .new p.fixed)
     | x, _ => return .new (x.get (if p.fixedIsLhs then p.fixed else t) (if p.fixedIsLhs then t else p.fixed))
 
 /-- `BinaryOperation.apply(lhs, rhs)`. -/
